@@ -100,9 +100,9 @@ def gen_policy(rng):
 def gen_confstr(rng, G=None):
     M, m = G or rng.choice(GLIBC)
     r = rng.random()
-    if r < 0.6:
-        return f"glibc {M}.{m}"
     if r < 0.7:
+        return f"glibc {M}.{m}"
+    if r < 0.8:
         return f"glibc {M}.{m}" + rng.choice(["-2014.11", ".9", "+git", " ", "\n", ".0.1", "x"])
     return rng.choice([None, "raise:OSError", "raise:ValueError", "raise:AttributeError", f"glibc{M}.{m}", f"glibc {M}.{m} extra",
                        f"  glibc   {M}.{m}  ", f"glibc\t{M}.{m}", "glibc junk", f"glibc {M}", f"glibc .{m}", f"glibc {M}.",
@@ -113,13 +113,13 @@ def gen_exe(rng, archs=None):
     r = rng.random()
     if r < 0.05:
         return None
-    if archs and r < 0.6:
+    if archs and r < 0.78:
         want = ("armhf" if "armv7l" in archs else "i686" if "i686" in archs else
                 {"aarch64": "aarch64", "s390x": "s390x"}.get(archs[0] if archs else "", "x86_64"))
         return E.build(E.exe_for(want))
     if r < 0.9:
         return E.build(E.exe_for(rng.choice(EXE_KINDS)))
-    return E.build(E.gen_desc(rng))
+    return E.build(E.gen_desc(rng, huge=False))
 
 
 MUSL_OUT = ["musl libc (x86_64)\nVersion 1.2.2\nDynamic Program Loader\nUsage: /lib/ld-musl-x86_64.so.1 [options] [--] pathname",
@@ -132,13 +132,18 @@ MUSL_OUT = ["musl libc (x86_64)\nVersion 1.2.2\nDynamic Program Loader\nUsage: /
 
 def gen_lcfg(rng, archs=None, musl=None):
     exe = gen_exe(rng, archs)
+    ld = rng.choice(MUSL_OUT)
     if musl or (musl is None and rng.random() < 0.35):
         base = E.exe_for(rng.choice(["x86_64", "aarch64", "i686", "armhf", "s390x"]))
         interp = rng.choice(E.INTERPS).encode()
-        exe = E.build(E.with_interp(base, interp)) if rng.random() < 0.8 else E.build(E.gen_desc(rng, sane=True))
+        if rng.random() < 0.55:          # a working musl system, any version
+            interp = rng.choice(E.INTERPS[:2] + ["/lib/ld-musl-armhf.so.1\0"]).encode()
+            ld = f"musl libc ({rng.choice(['x86_64', 'aarch64'])})\nVersion {rng.choice([0, 1, 1, 1, 2])}.{rng.randrange(0, 40)}" + \
+                rng.choice(["", ".2", ".24", "-git"]) + "\nDynamic Program Loader\n"
+        exe = E.build(E.with_interp(base, interp)) if rng.random() < 0.8 else E.build(E.gen_desc(rng, huge=False))
     return {"exe_hex": None if exe is None else exe.hex(), "confstr": gen_confstr(rng),
             "ctypes_version": rng.choice([None, None, None, "2.28", "2.17", "", "junk"]),
-            "policy": gen_policy(rng), "ld_stderr": rng.choice(MUSL_OUT)}
+            "policy": gen_policy(rng), "ld_stderr": ld}
 
 
 # ---------------------------------------------------------------- the statement, computed independently (laws)
@@ -379,6 +384,9 @@ class C16(Prop):
         "C16.ios_eq_spec", "C16.ios_newer_superset_partial", "C16.ios_superset_fails_above_9", "C16.ios_within_range",
         "C16.elf_decode_encode", "C16.ph_decode_encode", "C16.interp_is_first_pt_interp",
         "C16.interp_none_without_pt_interp", "C16.glibc_parse_render",
+        "C16.manylinux_newer_superset", "C16.manylinux_newer_superset_model", "C16.musl_newer_superset",
+        "C16.mac_newer_superset_10", "C16.mac_newer_superset_11",
+        "C16.manylinux_nodup", "C16.musl_nodup", "C16.mac_nodup", "C16.ios_nodup",
     ]
     rule = ("manylinux/musllinux/_linux_platforms under probes injected at the os.confstr / ctypes / sys.modules['_manylinux'] / "
             "sys.executable (scratch ELF file) / subprocess boundary: glibc 0.x-4.x with the floors 2.4/2.5/2.16/2.17/2.18 and the "
@@ -390,10 +398,9 @@ class C16(Prop):
     trusted = ["str.split/strip/splitlines, \\d and int() restricted to ASCII inputs",
                "io.BytesIO as the file object (seek up to 2^63-1, short reads past the end); os.fsdecode/fsencode round trip",
                "the _manylinux policy function is pure; config values as generated"]
-    partial = ["newer-system-superset: proved for iOS only, and only for an older minor <= 9 (ios_newer_superset_partial; the "
-               "negation at 14.10 -> 15.0 is ios_superset_fails_above_9, a known finding); for manylinux/musllinux/macOS the "
-               "superset relation is checked by the law newer_superset on the real code, not proved",
-               "no-duplicates (injectivity of the tag spellings) is checked by the laws, not proved",
+    partial = ["newer-system-superset for iOS is proved only for an older minor <= 9 (ios_newer_superset_partial); the negation at "
+               "14.10 -> 15.0 is proved (ios_superset_fails_above_9) and is a known finding; superset across version regimes "
+               "(glibc 2.x -> 3.x, macOS 10.x -> 11) is outside the statement",
                "manylinux refinement assumes glibc major >= 2 (for a 0.x/1.x version string the code enumerates that major "
                "series down to x.0; modelled and compared, outside the statement)",
                "musl version-string round trip and the policy/ABI probes of _linux_platforms are tied by correspondence only",
